@@ -92,6 +92,12 @@ func (k Keeper) RecvPacket(goCtx context.Context, msg *packettypes.MsgRecvPacket
 		if err := k.PacketKeeper.WriteAcknowledgement(ctx, &packet, ackBz); err != nil {
 			return nil, err
 		}
+		if result.Code != 0 {
+			// the packet contract returned an error result without reverting: the error
+			// acknowledgement (source refunds) must be the only effect on this chain, so
+			// the cached state and events of the callback are dropped
+			return &packettypes.MsgRecvPacketResponse{}, nil
+		}
 	} else if _, found := k.ClientKeeper.GetClientState(ctx, packet.GetDstChain()); !found {
 		// Write ErrAck
 		errAckBz, err := packettypes.NewAcknowledgement(1, []byte{}, "dstChain not found", relayer, packet.FeeOption).ABIPack()
